@@ -780,7 +780,7 @@ noncomputable def iceFracNode (c : Ctx ℝ) (t : ℝ) : ℝ :=
 
 theorem iceFrac_get (c : Ctx ℝ) (T : Array ℝ) (x : Nat) (h : x < T.size) :
     rd1 (iceFrac c T) x = iceFracNode c T[x] := by
-  simp [iceFrac, iceFracNode, rd1, Array.getD, h]
+  by_cases hsc : T[x] < c.TeqL <;> simp [iceFrac, iceFracNode, rd1, Array.getD, h, mnum, hsc]
 
 /-- hypotheses on the solution constants: positive masses, `κ = k_f/M_s > 0`, and the
 equilibrium freezing temperature `T_eq_l = T_m − κ·m_s/m_w` -/
